@@ -279,7 +279,20 @@ def run_property(pid, tier, seed, only=None, keep=False, nodiff=False):
             futs = [ex.submit(build.ir, w, d) for (w, d) in wr]
             nat = {(h.wrapper, h.defs) for h in hs if h.native_ok and (h.tests or h.testgen)}
             futs += [ex.submit(build.native, w, d) for (w, d) in sorted(nat)]
-            for f in futs: f.result()
+            failed_builds = {}
+            for f in futs:
+                try: f.result()
+                except BuildError as e: failed_builds[str(e).split(':')[0]] = str(e)
+            if failed_builds:
+                # a wrapper that no longer compiles against the current headers takes only its own harnesses out (reported as a machinery problem)
+                bad = set()
+                for (w, d) in wr:
+                    try: build.ir(w, d)
+                    except BuildError: bad.add((w, d))
+                for h in list(hs):
+                    if (h.wrapper, h.defs) in bad: hs.remove(h)
+                build_msgs = ['wrapper %s does not build against the current tree: %s' % (w, [v for k, v in failed_builds.items()][0][-400:]) for (w, d) in sorted(bad)]
+            else: build_msgs = []
         # known findings for this property
         kf = [k for k in known_findings() if k['property'] == pid and k.get('status', 'open') == 'open']
         known_keys = [k['key'] for k in kf]
@@ -332,6 +345,7 @@ def run_property(pid, tier, seed, only=None, keep=False, nodiff=False):
                 for e in errs: machinery.append('%s: %s' % (h.name, e))
         # 4. verdicts
         replayed = 0; violations = []; knowns = []; unconfirmed = []
+        machinery += build_msgs
         os.makedirs(os.path.join(ROOT, 'replay', pid), exist_ok=True)
         hmap = {h.name: h for h in hs}
         for h in hs:
